@@ -34,6 +34,7 @@ type Unit struct {
 	Row    int    `json:"row"`
 	Cells  []Cell `json:"cells"`
 	Grp    int    `json:"grp"` // x28 / m29: G0 and national option designation of triplet 1 (bits 10..13), 0 = default
+	Dc     int    `json:"dc"`  // x28 / m29: designation code of the packet
 }
 
 // Pes is one PES packet: presentation time (in 90 kHz ticks relative to the stream's base), PID selector and units.
@@ -198,9 +199,9 @@ func unitBytes(u Unit) []byte {
 		return append([]byte{0x03, 0x2c}, payload(u.Mag, 26, append([]byte{ham[0]}, looksLikeText("X26")...))...)
 	case "x28":
 		// designation code 0, triplet 1 with format bits 0 (format 1) and a G0 designation
-		return append([]byte{0x03, 0x2c}, payload(u.Mag, 28, append([]byte{ham[0], 0x00, byte(u.Grp << 2), 0x00}, looksLikeText("X28")...))...)
+		return append([]byte{0x03, 0x2c}, payload(u.Mag, 28, append([]byte{ham[u.Dc&0xf], 0x00, byte(u.Grp << 2), 0x00}, looksLikeText("X28")...))...)
 	case "m29":
-		return append([]byte{0x03, 0x2c}, payload(u.Mag, 29, append([]byte{ham[0], 0x00, byte(u.Grp << 2), 0x00}, looksLikeText("M29")...))...)
+		return append([]byte{0x03, 0x2c}, payload(u.Mag, 29, append([]byte{ham[u.Dc&0xf], 0x00, byte(u.Grp << 2), 0x00}, looksLikeText("M29")...))...)
 	case "x30":
 		return append([]byte{0x03, 0x2c}, payload(8, 30, append([]byte{ham[0]}, looksLikeText("X30")...))...)
 	case "stuff":
